@@ -174,7 +174,8 @@ func (fc *funcContext) translateMethod(fun *ast.FuncDecl) []byte {
 	// and define a proxy function on the other, which converts the receiver type
 	// and forwards the call to the primary implementation.
 	proxyFunction := func(lvalue, receiver string) []byte {
-		fun := fmt.Sprintf("function(...$args) { return %s.%s(...$args); }", receiver, funName)
+		// The proxy's own frame must not count for recover(), which compares call depths.
+		fun := fmt.Sprintf("function(...$args) { $stackDepthOffset--; try { return %s.%s(...$args); } finally { $stackDepthOffset++; } }", receiver, funName)
 		return []byte(fmt.Sprintf("\t\t%s = %s;\n", lvalue, fun))
 	}
 
